@@ -198,6 +198,61 @@ def hash_randomisation(sym, tier):
     return r
 
 
+
+# ------------------------------------------------------------------ sketches: no process-wide state between instances
+_TRICKY = [True, 1, 1.0, "1", (1, 2), (1.0, 2.0), "alpha"]       # equal-but-differently-printed keys included
+_SKETCH_MODS = [("count_min_sketch", "CountMinSketch", {"width": 4, "depth": 2, "seed": 7}),
+                ("bloom_filter", "BloomFilter", {"size_bits": 16, "num_hashes": 2, "seed": 7}),
+                ("hyperloglog", "HyperLogLog", {"precision": 4, "seed": 7})]
+
+
+def _fresh_module(name, tag):
+    """A private copy of a sketching module (own module globals, so own caches): the in-process stand-in
+    for 'a fresh interpreter'."""
+    import importlib.util
+    import happysimulator.sketching as pkg
+    path = os.path.join(os.path.dirname(pkg.__file__), name + ".py")
+    spec = importlib.util.spec_from_file_location(f"happysimulator.sketching._verif_{name}_{tag}", path)
+    mod = importlib.util.module_from_spec(spec)
+    spec.loader.exec_module(mod)
+    return mod
+
+
+def _sketch_state(sk):
+    for attr in ("_counters", "_bits", "_registers"):
+        if hasattr(sk, attr):
+            v = getattr(sk, attr)
+            return [list(x) if isinstance(x, (list, tuple)) else x for x in v]
+    return None
+
+
+def sketch_isolation(sym, tier):
+    """A sketch fed a stream gives the same state whether or not OTHER sketch instances were used before
+    it in the same interpreter (with arbitrary keys, including keys equal to but printed differently
+    from the stream's): compared against the same stream run in a private copy of the module."""
+    r = Result()
+    name, cls, kw = _SKETCH_MODS[sym.choice("sketch", len(_SKETCH_MODS))]
+    prior = [_TRICKY[sym.choice(f"prior{i}", len(_TRICKY))] for i in range(2)]
+    stream = [_TRICKY[sym.choice(f"item{i}", len(_TRICKY))] for i in range(2)]
+    shared = _fresh_module(name, "shared")      # per path, so that paths do not influence each other
+    alone = _fresh_module(name, "alone")
+    other = getattr(shared, cls)(**kw)
+    for it in prior:
+        other.add(it)
+    a = getattr(shared, cls)(**kw)
+    b = getattr(alone, cls)(**kw)
+    for it in stream:
+        a.add(it)
+        b.add(it)
+    if _sketch_state(a) != _sketch_state(b):
+        r.bad("run_does_not_depend_on_preceding_activity", {"sketch": cls, "prior_keys": [repr(x) for x in prior], "stream": [repr(x) for x in stream],
+                                                             "after_prior": _sketch_state(a), "alone": _sketch_state(b)})
+    if any(p == s_ and repr(p) != repr(s_) for p in prior for s_ in stream):
+        r.wit.add("prior_key_equal_but_printed_differently")
+    r.obs = {"sketch": cls}
+    return r
+
+
 def classify(clause, draws, obs):
     return None
 
@@ -209,7 +264,7 @@ MANIFEST = {
 }
 
 HARNESSES = [
-    H(name="c03_prior_activity", fn=prior_activity, shape="N", budget=lambda tier: 900.0 if tier == "quick" else 3000.0,
+    H(name="c03_prior_activity", fn=prior_activity, shape="N", budget=lambda tier: 1800.0 if tier == "quick" else 3000.0,
       cubes=lambda tier: [dict(_NOFLAGS, mode=m, kind0=a, kind1=0, t2=2, B_mode=0, B_kind0=b, B_kind1=0, B_t1=1, B_t2=2, B_daemon1=0, B_daemon2=0, B_cancel1=0,
                                B_cdm0a=0, **({"B_t0": 0, "B_d0b": 0} if tier == "quick" else {}))
                           for m in (0, 1) for a in (1, 3) for b in (1, 2)],
@@ -217,6 +272,12 @@ HARNESSES = [
       functions=["reset_event_counter", "_next_sort_index", "_active_sim_context", "EventHeap.seed_event_counter", "Simulation.__init__/run"],
       bounds=lambda tier: {"model A": "C01 scenario program", "activity in between": "a second symbolic program run to completion + 0..3 loose events created"},
       outside=["models with Sources / numpy RNG state", "other processes"]),
+    H(name="c03_sketch_isolation", fn=sketch_isolation, shape="N", budget=lambda tier: 600.0,
+      cubes=lambda tier: [{"sketch": k} for k in range(len(_SKETCH_MODS))],
+      require=lambda tier: ["prior_key_equal_but_printed_differently"], classify=classify,
+      functions=["CountMinSketch.add/_hash", "BloomFilter.add/_hash", "HyperLogLog.add/_hash"],
+      bounds=lambda tier: {"prior keys": 2, "stream": 2, "key table": [repr(x) for x in _TRICKY], "reference": "same stream in a private copy of the module (own module globals)"},
+      outside=["state shared through other modules than the sketch's own"]),
     H(name="c03_wall_clock", fn=wall_clock, shape="N", budget=lambda tier: 900.0,
       cubes=lambda tier: [dict(_NOFLAGS, mode=m, kind0=a, kind1=0, t2=2) for m in (0, 1, 2) for a in (1, 2, 3)],
       require=lambda tier: ["two_deliveries"], classify=classify,
